@@ -578,6 +578,7 @@ fn run_on(rep: &Report, reg: Vec<TypeEntry>, full: bool) -> BTreeSet<String> {
 }
 
 fn replay(case: &Value) -> String {
+    mc::report::quiet_panics();
     install_monitors(60);
     let reg = registry();
     let name = case["type"].as_str().unwrap_or("");
